@@ -614,6 +614,9 @@ def run(ctx):
     ctx.probes["traced_lines"] += S.lines
     ctx.probes[f"threads_{nthreads}"] += 1
     ctx.log("schedule", tuple(S.schedule[:200]), S.cancels)
+    if S.schedule:
+        ctx.measure("thread_schedules (sequence of (traced line, thread) switch points)", tuple(S.schedule))
+    ctx.measure("scripts (operation kinds per thread)", tuple(tuple(o["kind"] for o in ops) for ops in scripts))
     ctx.log("results", repr(results))
     reused = any(o["kind"] == "reapply" for ops in scripts for o in ops)
     ctx.nontrivial = (nthreads >= 2 and S.switches >= 1) or S.cancels > 0 or (nthreads == 1 and reused)
